@@ -11,7 +11,13 @@ import errno as _errno
 import hashlib
 import io
 import os
+import threading
 from typing import Any
+
+
+# Set by a world that runs several generator "processes" as threads under sim.threads.ThreadSched: called by the thread
+# that is about to perform a mutating file-system call, BEFORE the call - the scheduler may hand the baton to another one.
+YIELD: Any = None
 
 
 class SimCrash(BaseException):
@@ -130,13 +136,15 @@ class FsSeam:
                 self.fired = self.fired or "escape-blocked"
                 raise SimEscape(f"blocked {op} on {path}: outside the sandbox")
             return rec
+        if YIELD is not None:
+            YIELD(f"fs:{op}")
         if self.dead:
             rec = {"k": None, "op": op, "path": self._rel(path), "ok": False, "fault": "after-kill"}
             self.log.append(rec)
             raise SimCrash(f"{op} {rec['path']} attempted by a killed process")
         k = self.k
         self.k += 1
-        rec = {"k": k, "op": op, "path": self._rel(path), "ok": None}
+        rec = {"k": k, "op": op, "path": self._rel(path), "ok": None, "tid": threading.get_ident()}
         rec.update(extra)
         self.log.append(rec)
         if self.crash_at is not None and k == self.crash_at and not (op == "write" and self.torn is not None):
